@@ -845,6 +845,8 @@ class Interp:
             return self.call(f.mod, f.node, args, kwargs, self_obj=f.bound)
         if isinstance(f, Opaque):
             return Opaque(f.name + '()')
+        if callable(f) and not isinstance(f, (FuncRef, Builtin)):
+            return f(*args, **kwargs)
         if isinstance(f, Builtin):
             return self.builtin(f.name, args, kwargs, e, fr)
         if isinstance(f, tuple) and f and f[0] == 'dictmethod':
